@@ -65,10 +65,13 @@ def emitted_numbers(items):
     return [it for it in items if isinstance(it, Seg) and it.kind == "dec"]
 
 
-def check_family(B, rep, known, name, spec, assume, V, bits, path, expected_consts, profile, with_threads=False):
+def check_family(B, rep, known, name, spec, assume, V, bits, path, expected_consts, profile, with_threads=False, mult=1):
     """expected_consts: function(tree) -> list of wide terms that the emitted program must contain as its number literals (in order)"""
     r = B.parse(spec, profile, extra_assume=assume)
     fits = z3.ULT(V, z3.BitVecVal(1 << bits, WIDE))
+    if mult != 1 and "size-overflow" not in known:
+        # a size is exact-or-rejected as a whole: the count AND count x unit must fit
+        fits = z3.And(fits, z3.ULT(V * mult, z3.BitVecVal(1 << bits, WIDE)))
     ok_g, bad_tree, panic_g = False, False, False
     bad_emit, emit_panic = False, False
     for g, v in r.alts:
@@ -160,7 +163,7 @@ def run(ctx, rep, tier):
                 consts = (lambda V, mult=mult: [V * mult])
                 for profile in profiles:
                     check_family(B, rep, known, "-size %s%dd%s" % (sign, n, unit), ["-size " + sign] + ds + [unit], asm, V, 64,
-                                 ["Test", "Size", cmpv, uname], consts, profile)
+                                 ["Test", "Size", cmpv, uname], consts, profile, mult=mult)
         samples.append(dict(keyword="-size", unit=unit or "(default block)", multiplier=mult))
     # times: count is printed, unit length separately
     for kw, node, dflt in (TIME_KW if not q else TIME_KW[:2]):
@@ -177,7 +180,7 @@ def run(ctx, rep, tier):
     # Engine K anchors
     if not os.environ.get("VERIF_SKIP_KANI"):
         ctx.kani_prepare([("verif_kani_prelude.rs", "src/find_parser/mod.rs", "verif_kani_prelude"), ("verif_kani_pub.rs", "src/lib.rs", "verif_kani_pub")])
-        hs = ["c07_u64_digits_exact", "c07_byte_size_overflow"] + (["c07_u32_digits_exact_or_rejected"] if True else [])
+        hs = ["c07_u64_digits_exact", "c07_u32_digits_exact_or_rejected"] + (["c07_byte_size_overflow"] if "size-overflow" in known else [])
         res = ctx.kani_run(hs, timeout=900 if q else 3000, jobs=4)
         for h, r_ in res.items():
             rep.query("kani:" + h, r_["status"], r_["seconds"])
